@@ -81,27 +81,34 @@ R.contract(M_BL + ":BlockScope.__enter__", params={}, returns="none", modifies=[
 R.contract(M_BL + ":BlockScope.__exit__", params={"a": "any", "b": "any", "c": "any"}, returns="none", modifies=[], assumed=True)
 R.contract(M_CMDM + ":Command.config", params={}, returns="ref CommandConfig", ensures=["result is self._config"],
            modifies=[]).is_property = True
-R.contract(M_CMDM + ":Command.name", params={}, returns="str", ensures=["result == self._name"], modifies=[],
-           assumed=True, note="the name of the command's configuration").is_property = True
+R.contract(M_CMDM + ":Command.name", params={}, returns="str", ensures=["result == self._name"], modifies=[]).is_property = True
 R.contract(M_CMDM + ":Command.args_format", params={}, returns="ref ArgsFormat", ensures=["result is self._args_format"],
            modifies=[]).is_property = True
-R.contract(M_CCFG + ":CommandConfig.is_hidden", params={}, returns="bool", ensures=["result == self._hidden"], modifies=[],
-           assumed=True, note="hidden or disabled (the flag pair is C13.B)")
+R.contract(M_CCFG + ":CommandConfig.is_hidden", params={}, returns="bool", ensures=["result == self._hidden"], modifies=[])
 R.contract(M_CFG + ":Config.description", params={}, returns="str?", ensures=["(result is None) == (self._description is None)",
            "result is None or result == self._description"], modifies=[], assumed=True).is_property = True
 R.contract(M_CFG + ":Config.help", params={}, returns="str?", modifies=[], assumed=True).is_property = True
 R.contract(M_FMT + ":ArgsFormat.get_arguments", params={"include_base": "bool"}, returns="odict[str,ref Argument]",
            ensures=["fresh(result)"], modifies=[], assumed=True).defaults = {"include_base": True}
 R.contract(M_FMT + ":ArgsFormat.get_options", params={"include_base": "bool"}, returns="odict[str,ref Option]",
-           ensures=["fresh(result)"], modifies=[], assumed=True).defaults = {"include_base": True}
+           ensures=["fresh(result)",
+                    # the options of a format are in the normal form that Option.__init__ establishes (verified under C07)
+                    "all(bool(result[k]._flags & 1) or result[k]._short_name is not None for k in result)"],
+           modifies=[], assumed=True,
+           note="a new dict of the format's options, each in the normal form of C07 (short preferred => short name)"
+           ).defaults = {"include_base": True}
 LAYOUT_MODS = ["layout.g_added", "layout.g_last_label", "layout.g_last_text"]
 for _m, _p in (("_render_sub_command_description", {"layout": "ref BlockLayout", "description": "str"}),
                ("_render_sub_command_help", {"layout": "ref BlockLayout", "help": "str"})):
     R.contract(M_CH + ":CommandHelp." + _m, params=_p, ensures=["layout.g_added == old(layout.g_added) + 2"], modifies=LAYOUT_MODS)
-for _m in ("_render_sub_command_arguments", "_render_sub_command_options"):
-    R.contract(M_CH + ":CommandHelp." + _m, params={"layout": "ref BlockLayout", "items": "fn"},
-               ensures=["layout.g_added >= old(layout.g_added) + 1"], modifies=LAYOUT_MODS, assumed=True,
-               note="one line per element (AbstractHelp._render_argument / _render_option, verified) and a separator line")
+# the two element loops: one line per element handed in (whatever it is: _render_argument / _render_option are verified
+# to add exactly one line each) and one separator line behind them -- no element is dropped, none listed twice
+for _m, _p, _k in (("_render_sub_command_arguments", "arguments", "Argument"), ("_render_sub_command_options", "options", "Option")):
+    R.contract(M_CH + ":CommandHelp." + _m, params={"layout": "ref BlockLayout", _p: "seq[ref %s]" % _k},
+               requires=(["all(bool(o._flags & 1) or o._short_name is not None for o in options)"] if _k == "Option" else []),
+               ensures=["layout.g_added == old(layout.g_added) + len(%s) + 1" % _p], modifies=LAYOUT_MODS)
+    R.loop(M_CH + ":CommandHelp." + _m, 0, invariants=["layout.g_added == old(layout.g_added) + _i"],
+           modifies=LAYOUT_MODS, fingerprint="%s in %s" % (_p[:-1], _p))
 RSC = M_CH + ":CommandHelp._render_sub_command"
 R.contract(
     RSC, params={"layout": "ref BlockLayout", "command": "ref Command"},
@@ -112,4 +119,4 @@ R.contract(
     ],
     modifies=LAYOUT_MODS,
 )
-C13_EXTRA = [RSC, M_CH + ":CommandHelp._render_sub_command_description", M_CH + ":CommandHelp._render_sub_command_help"]
+C13_EXTRA = [M_CMDM + ":Command.name", M_CCFG + ":CommandConfig.is_hidden", RSC, M_CH + ":CommandHelp._render_sub_command_arguments", M_CH + ":CommandHelp._render_sub_command_options", M_CH + ":CommandHelp._render_sub_command_description", M_CH + ":CommandHelp._render_sub_command_help"]
